@@ -64,7 +64,13 @@ impl Angle {
         // handle negative angles by adding full rotations
         let normalized_total = if total_angle < 0.0 {
             let full_rotations = (total_angle.abs() / (4.0 * quarter_pi)).ceil();
-            total_angle + full_rotations * 4.0 * quarter_pi
+            let lifted = total_angle + full_rotations * 4.0 * quarter_pi;
+            // rounding in the lift can leave the total just below zero: add one more turn
+            if lifted < 0.0 {
+                lifted + 4.0 * quarter_pi
+            } else {
+                lifted
+            }
         } else {
             total_angle
         };
